@@ -60,7 +60,7 @@ type Case struct {
 	Steps []Step `json:"steps"`
 }
 
-var kinds = []string{"direct", "host", "catchall", "ignore-add", "ignore-remove", "redirect", "notfound", "nomethod", "options", "lookup", "lookup-tsr"}
+var kinds = []string{"direct", "host", "catchall", "ignore-add", "ignore-remove", "redirect", "notfound", "nomethod", "options", "lookup", "lookup-tsr", "host-infix-tsr", "double-infix-tsr", "infix"}
 
 type expKey struct{}
 
@@ -262,6 +262,10 @@ func newHarness() (*harness, error) {
 	f.MustHandle("GET", "/ts/{tok}/", rh, fox.WithIgnoreTrailingSlash(true))
 	f.MustHandle("GET", "/tr/{tok}/y/{tok2}", rh, fox.WithIgnoreTrailingSlash(true))
 	f.MustHandle("GET", "/rd/{tok}/", rh, fox.WithRedirectTrailingSlash(true))
+	// trailing-slash matches whose infix catch-alls are evaluated on pooled sub-contexts
+	f.MustHandle("GET", "{tok}.infix.example.com/d/*{tok2}/m/", rh, fox.WithIgnoreTrailingSlash(true))
+	f.MustHandle("GET", "/dd/*{tok}/m/*{tok2}/end/", rh, fox.WithIgnoreTrailingSlash(true))
+	f.MustHandle("GET", "/in/*{tok}/x/{tok2}", rh)
 	f.MustHandle("POST", "/m/{tok}", rh)
 	f.MustHandle("PUT", "/m/{tok}", rh)
 	return h, nil
@@ -282,6 +286,12 @@ func buildStep(s Step, tok string, n int) (*http.Request, *exp) {
 		path, e.pattern, e.params = "/ts/"+tok, "/ts/{tok}/", []string{"tok"}
 	case "ignore-remove":
 		path, e.pattern, e.params = "/tr/"+tok+"/y/"+tok+"/", "/tr/{tok}/y/{tok2}", []string{"tok", "tok2"}
+	case "host-infix-tsr":
+		host, path, e.pattern, e.params = tok+".infix.example.com", "/d/"+tok+"/m", "{tok}.infix.example.com/d/*{tok2}/m/", []string{"tok", "tok2"}
+	case "double-infix-tsr":
+		path, e.pattern, e.params = "/dd/"+tok+"/m/"+tok+"/end", "/dd/*{tok}/m/*{tok2}/end/", []string{"tok", "tok2"}
+	case "infix":
+		path, e.pattern, e.params = "/in/"+tok+"/x/"+tok, "/in/*{tok}/x/{tok2}", []string{"tok", "tok2"}
 	case "redirect":
 		path, e.scope, e.status, e.size = "/rd/"+tok, fox.RedirectHandler, http.StatusMovedPermanently, -1
 	case "notfound":
